@@ -21,6 +21,9 @@ class Fn(object):
         for n in ast.walk(self.ast):
             for c in ast.iter_child_nodes(n):
                 self.parent[id(c)] = n
+                # expressions of this function: sym.norm() reads them also with helpers applied and locals inlined
+                if isinstance(c, ast.expr):
+                    sym.NODE_FN[id(c)] = self
 
     @property
     def cfg(self):
